@@ -775,6 +775,47 @@ def r24_guarded_try(src, log, names):
 
 
 
+def r25_map_collect(src, log):
+    """`RECV.into_iter().map(|P| BODY).collect()` ->
+       `{ let mut out__k = Collector::new(); let mut it__k = RECV.into_iter(); loop { match it__k.next() { Some(P) => { out__k.push(BODY); } None => { break; } } } out__k.finish() }`
+    (Iterator::map + collect over a sequential iterator: the closure is applied to the items in order and the results are
+    collected; needed because Verus has no closures that capture `&mut`)."""
+    n = 0
+    while True:
+        toks = lex(src); m = match_brackets(toks); s = sig(toks)
+        hit = None
+        for k, i in enumerate(s):
+            if toks[i].text == "." and k + 6 < len(s) and toks[s[k + 1]].text == "into_iter" and toks[s[k + 2]].text == "(" and toks[s[k + 3]].text == ")" \
+                    and toks[s[k + 4]].text == "." and toks[s[k + 5]].text == "map" and toks[s[k + 6]].text == "(":
+                o = s[k + 6]; c = m[o]; ck = s.index(c)
+                if not (ck + 4 < len(s) and toks[s[ck + 1]].text == "." and toks[s[ck + 2]].text == "collect" and toks[s[ck + 3]].text == "(" and toks[s[ck + 4]].text == ")"):
+                    continue
+                cl = _closure_spans(toks, s, m, k + 6, ck)
+                if not cl or cl[0][0] != k + 7:
+                    continue
+                b1, b2, bs, be = cl[0]
+                params = src[toks[s[b1]].end:toks[s[b2]].start].strip()
+                body = src[toks[s[bs]].start:toks[s[be]].end]
+                j = k - 1
+                while j >= 0 and (toks[s[j]].kind == "ident" or toks[s[j]].text == "."):
+                    if toks[s[j]].kind == "ident" and toks[s[j]].text in ("let", "return", "mut", "in", "if", "match"):
+                        break
+                    j -= 1
+                r0 = j + 1
+                recv = src[toks[s[r0]].start:toks[i].start].strip()
+                new = ("{ let mut out__%d = Collector::new(); let mut it__%d = %s.into_iter(); loop /*@map_collect*/ { match it__%d.next() { Some(%s) => { out__%d.push(%s); } None => { break; } } } out__%d.finish() }"
+                       % (n, n, recv, n, params, n, body, n))
+                hit = (toks[s[r0]].start, toks[s[ck + 4]].end, new)
+                break
+        if hit is None:
+            break
+        src = _replace(src, [hit])
+        n += 1
+    log["R25"] = log.get("R25", 0) + n
+    return src
+
+
+
 def r11_bytelits(src, log, table):
     """b"lit" -> blit_<n>()  ; table collects the generated external_body functions.
     `E == b"lit"` (slice equality against a literal) -> `bytes_eq(E, blit_<n>())`, where the shim
@@ -1149,6 +1190,7 @@ def r7_apply(src, log, map_kind="result", path_map_kind="result", map_or_kind="o
 
 
 RULES = {
+    "R25": r25_map_collect,
     "R21": r21_streq,
     "R17": r17_underscore_assign,
     "R18": r18_try_for_each,
